@@ -343,9 +343,28 @@ def all_cases(tier):
         for stale in (False, True):
             for changed in (True, False):
                 for di in range(3):
-                    for f in fault_list(6 if changed else 1, kinds=("oserror", "typeerror")):
+                    for f in fault_list(6 if changed else 1, kinds=("oserror", "typeerror", "interrupt")):
                         cases.append(dict(kind="save", tool="rotate", backup=backup, changed=changed, stale=stale, doc=di,
                                           fault=f))
+    # close() of the `with` block as a call of its own (yaml-merge, eyaml-rotate-keys): it fails alone, or
+    # after a failure of any earlier call (the second failure of the run)
+    for close in ("before", "mid"):
+        for json in (False, True):
+            for ndocs in (1, 2):
+                for backup in (False, True):
+                    for stale in (False, True):
+                        for f in fault_list(8 + (ndocs if json else 1), kinds=("oserror",)):
+                            cases.append(dict(kind="save", tool="merge", mode="overwrite", backup=backup, json=json,
+                                              ndocs=ndocs, stale=stale, texists=True, oexists=False, doc=0, fault=f,
+                                              close=close))
+            for f in fault_list(4, kinds=("oserror",)):
+                cases.append(dict(kind="save", tool="merge", mode="output", backup=False, json=json, ndocs=1,
+                                  stale=False, texists=True, oexists=False, doc=1, fault=f, close=close))
+        for backup in (False, True):
+            for stale in (False, True):
+                for f in fault_list(6, kinds=("oserror", "interrupt")):
+                    cases.append(dict(kind="save", tool="rotate", backup=backup, changed=True, stale=stale, doc=1,
+                                      fault=f, close=close))
     # pre-write failures
     for name in SET_CAUSES:
         for backup in (False, True):
@@ -403,6 +422,8 @@ def requests(case):
             cfg = "(merge %s %s %s i%d true)" % (case["mode"], b(case["backup"]), b(case["json"]), case["ndocs"])
         else:
             cfg = "(rotate %s %s)" % (b(case["backup"]), b(case["changed"]))
+        if case.get("close"):
+            return ["(save-close %s %s %s %s)" % (cfg, start_fs(case), f, case["close"])]
         if case.get("fault2") is not None:
             return ["(save2 %s %s %s %s)" % (cfg, start_fs(case), f, fault_sexp(case["fault2"]))]
         return ["(save %s %s %s)" % (cfg, start_fs(case), f)]
@@ -521,17 +542,18 @@ def snapshot(d):
 
 
 def ref_key(case):
-    return tuple(sorted((k, str(v)) for k, v in case.items() if k != "fault"))
+    return tuple(sorted((k, str(v)) for k, v in case.items() if k not in ("fault", "close")))
 
 
-def run_case(case, faults):
+def run_case(case, faults, close=None):
     d = _mkdir()
     limit = sys.getrecursionlimit()
     try:
         mod, argv, roles, files, T, O, stdin_text = setup(case, d)
         if case.get("cause") in CLI_RECURSION_LIMIT_CAUSES:
             sys.setrecursionlimit(1000)     # the interpreter's default, under which the real tool runs
-        r = faultfs.run_tool(mod, argv, roles, fault=[tuple(f) for f in faults if f] or None, stdin_text=stdin_text)
+        r = faultfs.run_tool(mod, argv, roles, fault=[tuple(f) for f in faults if f] or None, stdin_text=stdin_text,
+                             close_fault=close)
         after = snapshot(d)
     finally:
         sys.setrecursionlimit(limit)
@@ -561,7 +583,7 @@ def observe(case):
         r0, before0, after0, T0, O0 = run_case(case, [])
         _REF[key] = (after0.get(T0), after0.get(O0), r0["status"])
     newT, newO, _ = _REF[key]
-    r, before, after, T, O = run_case(case, [case["fault"], case.get("fault2")])
+    r, before, after, T, O = run_case(case, [case["fault"], case.get("fault2")], case.get("close"))
     origT = before.get(T)
     t = classify_bytes(after.get(T), origT, newT)
     bk = classify_bytes(after.get(T + ".bak"), origT, None)
@@ -638,7 +660,8 @@ def classify(case, obs):
     if case["kind"] == "pre":
         return "pre:%s:%s:status%s" % (case["tool"], case["cause"], x.get("status"))
     f = case["fault"]
-    tool = case["tool"] + (":refused" if "fdoc" in case else "") + (":2faults" if case.get("fault2") else "")
+    tool = case["tool"] + (":refused" if "fdoc" in case else "") + (":2faults" if case.get("fault2") else "") + \
+        (":close-" + case["close"] if case.get("close") else "")
     return "save:%s:%s:%s" % (tool, "nofault" if f is None else ("%s-%s" % (f[1], f[2])),
                               ("fired%d" % len(x.get("fired_ops") or [])) if x.get("fired") else "notfired")
 
